@@ -106,6 +106,60 @@ def main(argv):
             return _orig_finit(self, exc_value, *a, **k)
         _tfailure.Failure.__init__ = _finit
 
+        # CrossHair 0.0.110: `a == b` on symbolic strs can return a CONCRETE wrong False when the two
+        # code-point sequences model different python container types (e.g. `(p + "")[:1] + ...`
+        # gives SymbolicList-vs-tuple-view halves).  A concrete False is therefore re-decided
+        # element-wise (authoritative); symbolic results and True are left alone.
+        from crosshair import simplestructs as _sst
+
+        def _elementwise(x, y):
+            if len(x) != len(y):
+                return False
+            for a, b in zip(x, y):
+                if a is b:
+                    continue
+                if a != b:
+                    return False
+            return True
+
+        def _sub_eq(x, y):
+            r = (x == y)
+            with NoTracing():
+                suspicious = (r is False) or (r is NotImplemented)
+            if not suspicious:
+                return r
+            return _elementwise(x, y)
+
+        def _seqcat_eq(self, other):
+            with NoTracing():
+                if not hasattr(other, "__len__"):
+                    return False
+                first, second = self._first, self._second
+            if self.__len__() != other.__len__():
+                return False
+            firstlen = first.__len__()
+            return _sub_eq(first, other[:firstlen]) and _sub_eq(second, other[firstlen:])
+        _sst.SequenceConcatenation.__eq__ = _seqcat_eq
+
+        _orig_str_eq = builtinslib.LazyIntSymbolicStr.__eq__
+
+        def _str_eq(self, other):
+            r = _orig_str_eq(self, other)
+            with NoTracing():
+                suspicious = r is False
+                kind = 0
+                if suspicious:
+                    if isinstance(other, builtinslib.LazyIntSymbolicStr):
+                        kind = 1
+                    elif isinstance(other, str):
+                        kind = 2
+            if not suspicious or kind == 0:
+                return r
+            mine = self._codepoints
+            theirs = other._codepoints if kind == 1 else [ord(ch) for ch in other]
+            return _elementwise(mine, theirs)
+        builtinslib.LazyIntSymbolicStr.__eq__ = _str_eq
+
         # count solver queries and time
         qstat = {"n": 0, "t": 0.0}
         _orig_check = z3.Solver.check
